@@ -23,8 +23,31 @@ func TestMain(m *testing.M) { hx.Main(m, "C17") }
 func record(dotu bool, o *Outcome) {
 	hx.Eval()
 	hx.Label(fmt.Sprintf("%s %s -> %s", o.Op, o.Label, o.Result))
-	if o.BFailed || o.Touched {
-		hx.NonTrivial(o.Op, o.ArgClass, o.Result, dotu, o.Touched)
+	if o.BFailed || o.Touched || o.Attr != "" {
+		hx.NonTrivial(o.Op, o.ArgClass, o.Result, dotu, o.Touched, o.Attr)
+	}
+	if o.Attr != "" {
+		// the step touched an object with attributes prepared on the host
+		op := o.Op
+		if op == "wstat" && strings.Contains(" "+o.ArgClass+"+", " mode+") {
+			op = "wstat-mode"
+		}
+		seen := map[string]bool{}
+		for _, f := range strings.Fields(o.Attr) {
+			if !strings.HasPrefix(f, "on=") && !strings.HasPrefix(f, "target=") && op != "create" {
+				continue // remove / rename: the attribute of the parent or the destination
+			}
+			for _, w := range strings.Split(f[strings.IndexByte(f, '=')+1:], "+") {
+				if !seen[w] {
+					seen[w] = true
+					hx.Label("host-prepared " + w + ": " + op)
+				}
+			}
+		}
+		hx.ExtraAdd("steps_on_host_prepared_objects", 1)
+		if op == "wstat-mode" && !o.BFailed {
+			hx.ExtraAdd("chmods_of_host_prepared_objects", 1)
+		}
 	}
 	for i, id := range o.Known {
 		// a listed finding was observed: the clause it breaks (error number /
@@ -169,6 +192,9 @@ func cloneComps(c [][]byte, extra ...[]byte) [][]byte {
 	return out
 }
 
+// owners and groups of host-prepared objects (the sandbox runs as root).
+var idSet = []uint32{0, 1, 1000, 65534}
+
 // drawTree generates the initial tree.
 func drawTree(t *rapid.T, pool [][]byte) []Node {
 	n := rapid.IntRange(0, 12).Draw(t, "nnodes")
@@ -180,7 +206,10 @@ func drawTree(t *rapid.T, pool [][]byte) []Node {
 		parent := dirs[rapid.IntRange(0, len(dirs)-1).Draw(t, "parent")]
 		name := pool[rapid.IntRange(0, len(pool)-1).Draw(t, "name")]
 		p := cloneComps(parent, name)
-		kind := rapid.SampledFrom([]string{"file", "file", "file", "dir", "dir", "symlink", "link"}).Draw(t, "kind")
+		kind := rapid.SampledFrom([]string{"file", "file", "file", "dir", "dir", "symlink", "link", "special"}).Draw(t, "kind")
+		if kind == "special" {
+			kind = rapid.SampledFrom([]string{"fifo", "fifo", "socket", "chardev"}).Draw(t, "specialkind")
+		}
 		if used[relOf(p)] {
 			continue
 		}
@@ -203,8 +232,21 @@ func drawTree(t *rapid.T, pool [][]byte) []Node {
 			nd.Target = drawTarget(t, pool, name)
 		case "link":
 			nd.Src = files[rapid.IntRange(0, len(files)-1).Draw(t, "src")]
+		case "fifo", "socket", "chardev":
+			nd.Perm = drawPerm(t, "perm")
 		}
-		if (kind == "file" || kind == "dir") && rapid.IntRange(0, 2).Draw(t, "setmtime") == 0 {
+		if hasMode(kind) {
+			// attributes that can only be prepared on the host: special mode
+			// bits, a foreign owner or group
+			if rapid.IntRange(0, 2).Draw(t, "withspecial") == 0 {
+				nd.Special = uint32(rapid.IntRange(1, 7).Draw(t, "special")) << 9
+			}
+			if rapid.IntRange(0, 4).Draw(t, "withowner") == 0 {
+				nd.Uid = rapid.SampledFrom(idSet).Draw(t, "uid")
+				nd.Gid = rapid.SampledFrom(idSet).Draw(t, "gid")
+			}
+		}
+		if hasMode(kind) && rapid.IntRange(0, 2).Draw(t, "setmtime") == 0 {
 			nd.Mtime = drawMtime(t, "mtime")
 		}
 		used[relOf(p)] = true
@@ -356,6 +398,9 @@ func (g *gen) drawCreateFile(t *rapid.T, parent [][]byte) Step {
 	s := Step{Op: "create", Kind: "file"}
 	s.Path = parent
 	s.Name = g.drawNewName(t, "name")
+	if isFifo(under(g.m.B, parent) + "/" + string(s.Name)) {
+		t.Skip("the name is (or leads to) a FIFO: the open would wait for a peer")
+	}
 	s.Perm = drawPerm(t, "perm")
 	s.Mode = rapid.SampledFrom([]uint8{oRead, oWrite, oRdwr, oExec}).Draw(t, "mode")
 	if rapid.Bool().Draw(t, "trunc") {
@@ -401,7 +446,12 @@ func (g *gen) drawCreateSpecial(t *rapid.T, parent [][]byte) Step {
 		if len(objs) == 0 {
 			t.Skip("nothing to link to")
 		}
-		s.Src = objs[rapid.IntRange(0, len(objs)-1).Draw(t, "src")].comps
+		src := objs[rapid.IntRange(0, len(objs)-1).Draw(t, "src")]
+		s.Src = src.comps
+		if src.kind == "fifo" {
+			// the new name is opened: only ORDWR does not wait for a peer
+			s.Mode = oRdwr
+		}
 	}
 	if len(s.Path) > 0 {
 		s.Stale = g.stale(t)
@@ -493,6 +543,35 @@ func (g *gen) drawWstatOne(t *rapid.T, o obj) Step {
 	return s
 }
 
+// hostPrepared: the object has attributes that only the host can give it.
+func (g *gen) hostPrepared(o obj) bool {
+	return attrOf(under(g.m.B, o.comps)) != ""
+}
+
+// wstatPrepared: a one-field wstat (mostly the mode) on an object that still
+// carries host-prepared attributes — special mode bits, a special type, a
+// foreign owner.
+func (g *gen) wstatPrepared(t *rapid.T) {
+	var cands []obj
+	for _, o := range g.objects() {
+		if o.kind != "symlink" && g.hostPrepared(o) {
+			cands = append(cands, o)
+		}
+	}
+	if len(cands) == 0 {
+		t.Skip("no host-prepared object")
+	}
+	o := cands[rapid.IntRange(0, len(cands)-1).Draw(t, "target")]
+	var s Step
+	if rapid.Bool().Draw(t, "modeonly") {
+		s = Step{Op: "wstat", Path: o.comps, SetMode: true, WMode: drawPerm(t, "wmode")}
+	} else {
+		s = g.drawWstatOne(t, o)
+	}
+	s.Keep = g.keep(t)
+	g.run(t, s)
+}
+
 // reuse sends a step through a fid kept alive by an earlier step: the fid of
 // a refused or accepted wstat, of a refused create (still the directory), of a
 // successful create (the new object, open) or of a write.
@@ -552,12 +631,12 @@ func (g *gen) reuse(t *rapid.T) {
 func (g *gen) wstatCombo(t *rapid.T) {
 	var cands []obj
 	for _, o := range g.objects() {
-		if o.kind == "file" || o.kind == "dir" {
+		if hasMode(o.kind) {
 			cands = append(cands, o)
 		}
 	}
 	if len(cands) == 0 {
-		t.Skip("no file or directory")
+		t.Skip("no file, directory or special file")
 	}
 	o := cands[rapid.IntRange(0, len(cands)-1).Draw(t, "target")]
 	parent := o.comps[:len(o.comps)-1]
@@ -655,6 +734,7 @@ func TestPropTwin(t *testing.T) {
 			"remove":        g.remove,
 			"wstatOne":      g.wstatOne,
 			"wstatCombo":    g.wstatCombo,
+			"wstatPrepared": g.wstatPrepared,
 			"reuse":         g.reuse,
 			"reuseAgain":    g.reuse,
 		})
